@@ -131,7 +131,7 @@ def run_property(pid, tier='quick', seed=0, out=sys.stdout):
                 rep['error'] = r.get('error', '')[:600]
                 faults.append(f'stand-in {j["name"]} did not complete: {r.get("status")} {r.get("error", "")[-300:]}')
             else:
-                rep.update({k: r.get(k) for k in ('evaluations', 'distinct', 'configs') if k in r})
+                rep.update({k: r.get(k) for k in ('evaluations', 'distinct', 'configs', 'wall_s') if k in r})
                 rep['samples'] = r.get('samples', [])[:3]
                 for frec in r.get('failures', []):
                     standin_failures.append((j['name'], frec))
